@@ -74,6 +74,8 @@ Inductive obs :=
                                       refreshed during the free run; fast = the n refreshes came quicker than one
                                       stream can produce them; c = last counter; nn = notifies to the peer for
                                       these refreshes; mono = the counters increased strictly *)
+| Stuck                            (* a call did not return although nobody holds stopMux, or a resumed stream
+                                      neither refreshed nor exited: never produced by the model *)
 | SubR (b : bool)                  (* the peer is subscribed now *)
 | Data (c : option N).             (* counter in the stored heartbeat data *)
 
@@ -408,7 +410,7 @@ Fixpoint run_pinned (s : pst) (ops : list op) : pst * list (op * list obs) :=
         8 m k n    Burst m k n;   0 t w = Setup with a peer connection that takes w ms per write
    obs: 0 Ready, 1 Busy, 2 Blocked, 3 NotRunnable, 4 h Parked, 5 Done, 6 b RetB, 7 ErrNoFeature,
         8 t Acquired, 9 g Started, 10 c n fresh tmo Refreshed, 11 Exited, 12 p late Timing,
-        13 site Panic, 14 b SubR, 15 [c] Data, 16 g live fast c nn mono Bursted *)
+        13 site Panic, 14 b SubR, 15 [c] Data, 16 g live fast c nn mono Bursted, 17 Stuck *)
 Definition parse_call (z : Z) : option call :=
   match z with
   | 0 => Some CIsRunning | 1 => Some CStop | 2 => Some CStart | 3 => Some CAddFn | 4 => Some CRemoveEntity
@@ -448,6 +450,7 @@ Definition print_obs (o : obs) : list Z :=
   | Timing p l => [12; p; Zn l]
   | Panic k => [13; Zn k]
   | SubR b => [14; Zb b]
+  | Stuck => [17]
   | Bursted g l f c nn m => [16; Zn g; Zn l; Zb f; Zn c; Zn nn; Zb m]
   | Data None => [15]
   | Data (Some c) => [15; Zn c]
@@ -470,6 +473,7 @@ Definition parse_obs (l : list Z) : option obs :=
   | [12; p; l] => Some (Timing p (Nz l))
   | [13; k] => Some (Panic (Nz k))
   | [14; b] => Some (SubR (bZ b))
+  | [17] => Some Stuck
   | [16; g; l; f; c; nn; m] => Some (Bursted (Nz g) (Nz l) (bZ f) (Nz c) (Nz nn) (bZ m))
   | [15] => Some (Data None)
   | [15; c] => Some (Data (Some (Nz c)))
